@@ -2,7 +2,9 @@
 
 spec:    specs/geo/GroundTrack.tla (arc-length model: Location, Step with the
          waypoint-crossing rule and overstep continuation; Additive,
-         RefuseOutOfRange, OverstepOnlyWhenAllowed).
+         RefuseOutOfRange, OverstepOnlyWhenAllowed); GroundTrackHist.tla (one
+         object answering a sequence of queries: HistoryIndependent; negative
+         control Design = "resume").
 binding: each TLC-enumerated abstract track is realised on real geodesics from
          a list of start points / headings (equatorial, antimeridian, near
          polar, meridional, near-antipodal scale); the returned location is
@@ -51,12 +53,65 @@ def build_track(legs, start, over):
     return gt, wps
 
 
+def query_devs(gt, wps, c, o, start):
+    """One query on a ground-track object against the specification's answer."""
+    from AEIC.utils import GEOD
+
+    unit = start[3]
+    devs = []
+    # lattice distances that coincide with a waypoint (or the end) use the track's own
+    # cumulative distance, so that "exactly at the waypoint" is bit-equal on both sides
+    cum = [0]
+    for L in c['legs']:
+        cum.append(cum[-1] + L)
+
+    def real(d):
+        if d in cum:
+            return gt.waypoint_distance(cum.index(d))
+        if d > cum[-1]:
+            return gt.total_distance + (d - cum[-1]) * unit
+        return d * unit
+
+    try:
+        if c['op'] == 'location':
+            p = gt.location(real(c['a']))
+        else:
+            ra = real(c['a'])
+            p = gt.step(ra, (real(c['a'] + c['b']) - ra) if c['b'] >= 0 else c['b'] * unit)
+        refused = False
+    except Exception as e:
+        refused, err = True, f'{type(e).__name__}: {e}'
+    what = f'{c["op"]}({c["a"]}{"" if c["op"] == "location" else ", " + str(c["b"])}) [half units of {unit / 1000:.0f} km] on legs {c["legs"]} from {start[:3]}, overstep {"allowed" if c["over"] else "not allowed"}'
+    if refused != bool(o['refused']):
+        if refused:
+            devs.append((f'{c["op"]}:refused', f'{what}: refused ({err}); specification: leg {o["leg"]} offset {o["off"]}'))
+        else:
+            devs.append((f'{c["op"]}:not-refused', f'{what}: returned {p}; specification: refused'))
+        return devs
+    if refused:
+        return devs
+    k = o['leg']
+    w0, w1 = wps[k - 1], wps[k]
+    az_leg, _, _ = GEOD.inv(w0[0], w0[1], w1[0], w1[1])
+    elon, elat, _ = GEOD.fwd(w0[0], w0[1], az_leg, o['off'] * unit)
+    _, _, miss = GEOD.inv(elon, elat, p.location.longitude, p.location.latitude)
+    if not (math.isfinite(miss) and miss <= 1.0):
+        kind = 'overstep' if (c['op'] == 'step' and c['a'] + c['b'] > sum(c['legs'])) else c['op']
+        devs.append((f'{kind}:position', f'{what}: returned ({p.location.longitude:.6f}, {p.location.latitude:.6f}), {miss:.1f} m from the point {o["off"] * unit / 1000:.1f} km along leg {k} ({elon:.6f}, {elat:.6f})'))
+    if not (0.0 <= p.azimuth < 360.0):
+        devs.append(('azimuth-range', f'{what}: azimuth {p.azimuth} is outside [0, 360)'))
+    elif 0 < o['off'] < c['legs'][k - 1]:
+        az_here, _, _ = GEOD.inv(p.location.longitude, p.location.latitude, w1[0], w1[1])
+        d = abs(((p.azimuth - az_here) + 180.0) % 360.0 - 180.0)
+        if d > 1e-6:
+            devs.append(('azimuth-direction', f'{what}: azimuth {p.azimuth}; direction to the next waypoint {az_here % 360.0}'))
+    return devs
+
+
 def run_case(job):
     warnings.simplefilter('ignore')
     case, si = job
     try:
-        from AEIC.utils import GEOD
-
         c, o = case['c'], case['o']
         start = STARTS[si]
         unit = start[3]
@@ -67,53 +122,32 @@ def run_case(job):
         total = sum(c['legs']) * unit
         if abs(gt.total_distance - total) > 1e-3:
             devs.append(('total-distance', f'track {c["legs"]} from {start[:3]}: total_distance = {gt.total_distance}; sum of leg geodesics = {total}'))
-        # lattice distances that coincide with a waypoint (or the end) use the track's own
-        # cumulative distance, so that "exactly at the waypoint" is bit-equal on both sides
-        cum = [0]
-        for L in c['legs']:
-            cum.append(cum[-1] + L)
+        return devs + query_devs(gt, wps, c, o, start)
+    except Exception as e:
+        import traceback
 
-        def real(d):
-            if d in cum:
-                return gt.waypoint_distance(cum.index(d))
-            if d > cum[-1]:
-                return gt.total_distance + (d - cum[-1]) * unit
-            return d * unit
+        return [('machinery', f'{type(e).__name__}: {e}\n{traceback.format_exc()}')]
 
-        try:
-            if c['op'] == 'location':
-                p = gt.location(real(c['a']))
-            else:
-                ra = real(c['a'])
-                p = gt.step(ra, (real(c['a'] + c['b']) - ra) if c['b'] >= 0 else c['b'] * unit)
-            refused = False
-        except Exception as e:
-            refused, err = True, f'{type(e).__name__}: {e}'
-        what = f'{c["op"]}({c["a"]}{"" if c["op"] == "location" else ", " + str(c["b"])}) [half units of {unit / 1000:.0f} km] on legs {c["legs"]} from {start[:3]}, overstep {"allowed" if c["over"] else "not allowed"}'
-        if refused != bool(o['refused']):
-            if refused:
-                devs.append((f'{c["op"]}:refused', f'{what}: refused ({err}); specification: leg {o["leg"]} offset {o["off"]}'))
-            else:
-                devs.append((f'{c["op"]}:not-refused', f'{what}: returned {p}; specification: refused'))
-            return devs
-        if refused:
-            return devs
-        k = o['leg']
-        w0, w1 = wps[k - 1], wps[k]
-        az_leg, _, _ = GEOD.inv(w0[0], w0[1], w1[0], w1[1])
-        elon, elat, _ = GEOD.fwd(w0[0], w0[1], az_leg, o['off'] * unit)
-        _, _, miss = GEOD.inv(elon, elat, p.location.longitude, p.location.latitude)
-        if not (math.isfinite(miss) and miss <= 1.0):
-            kind = 'overstep' if (c['op'] == 'step' and c['a'] + c['b'] > sum(c['legs'])) else c['op']
-            devs.append((f'{kind}:position', f'{what}: returned ({p.location.longitude:.6f}, {p.location.latitude:.6f}), {miss:.1f} m from the point {o["off"] * unit / 1000:.1f} km along leg {k} ({elon:.6f}, {elat:.6f})'))
-        if not (0.0 <= p.azimuth < 360.0):
-            devs.append(('azimuth-range', f'{what}: azimuth {p.azimuth} is outside [0, 360)'))
-        elif 0 < o['off'] < c['legs'][k - 1]:
-            az_here, _, _ = GEOD.inv(p.location.longitude, p.location.latitude, w1[0], w1[1])
-            d = abs(((p.azimuth - az_here) + 180.0) % 360.0 - 180.0)
-            if d > 1e-6:
-                devs.append(('azimuth-direction', f'{what}: azimuth {p.azimuth}; direction to the next waypoint {az_here % 360.0}'))
-        return devs
+
+def run_history(job):
+    """A sequence of queries on ONE ground-track object (GroundTrackHist.tla)."""
+    warnings.simplefilter('ignore')
+    h, si = job
+    try:
+        start = STARTS[si]
+        trk = h['trk']
+        if start[3] > 100e3 and sum(trk['legs']) * start[3] > 19.0e6:
+            return []
+        gt, wps = build_track(trk['legs'], start, trk['over'])
+        for i, e in enumerate(h['hist']):
+            c = dict(e['q'], legs=trk['legs'], over=trk['over'])
+            devs = query_devs(gt, wps, c, e['o'], start)
+            if devs:
+                prev = [(x['q']['op'], x['q']['a'], x['q']['b']) for x in h['hist'][:i]]
+                fresh = query_devs(build_track(trk['legs'], start, trk['over'])[0], wps, c, e['o'], start)
+                tag = 'history' if not fresh else 'fresh-too'
+                return [(f'{tag}:{k}', f'query {i} after {prev} on the same object: {d}') for k, d in devs]
+        return []
     except Exception as e:
         import traceback
 
@@ -157,6 +191,7 @@ def run(ctx: Ctx):
     ctx.rule = (
         'abstract tracks = 5 leg-length sequences (1-4 legs) x overstep allowed/not x location(d) for every half-unit d from -1 to total+3 and step(a, b) '
         'for every a and b in {-1,0,1,2,3,5,11} half units (1 092 cases, TLC-enumerated), each realised from 6 start points/headings; '
+        'query histories on one object: every ordered pair of location queries on the 3 multi-leg tracks and random walks of 8 location/step queries; '
         'mission distances for every airport pair of the test file + synthetic airports; non-trivial = at a waypoint, beyond the end, or refused'
     )
     ctx.not_covered += ['"is the true WGS-84 geodesic" as a statement about geodesy: decided only relative to pyproj.Geod (trusted base); what is verified is GroundTrack\'s composition of geodesic primitives']
@@ -165,6 +200,9 @@ def run(ctx: Ctx):
         c = json.loads(Path(ctx.replay).read_text())['case']
         if 'case' in c:
             for key, desc in run_case((c['case'], c['start'])):
+                ctx.violation(key, desc, c)
+        if 'history' in c:
+            for key, desc in run_history((c['history'], c['start'])):
                 ctx.violation(key, desc, c)
         return
     tlc.check(ctx, 'geo/GroundTrack', 'geo/MC_GroundTrack.cfg', workers=8)
@@ -183,6 +221,28 @@ def run(ctx: Ctx):
             if key not in seen:
                 seen.add(key)
                 ctx.violation(key, desc, {'case': case, 'start': si})
+    # histories on one object: exhaustive pairs of location queries on the multi-leg tracks, random walks of 8 mixed queries
+    tlc.check(ctx, 'geo/GroundTrackHist', 'geo/MC_GroundTrackHist.cfg', workers=8)
+    neg = tlc.run('geo/GroundTrackHist', 'geo/MC_GroundTrackHist.cfg', sub={'Design = "stateless"': 'Design = "resume"'})
+    if 'Invariant HistoryIndependent is violated' not in neg['out']:
+        raise MachineryError('negative control failed: a resuming waypoint search should violate HistoryIndependent')
+    ctx.extra['negative_control'] = 'GroundTrackHist with Design=resume violates HistoryIndependent (location(3) then an earlier-leg query) as expected'
+    hs = tlc.check(ctx, 'geo/GroundTrackHist', 'geo/Gen_GroundTrackHist.cfg', workers=8)['emitted']
+    nw = 150 if ctx.quick else 3000
+    hs += tlc.check(ctx, 'geo/GroundTrackHist', 'geo/Sim_GroundTrackHist.cfg', workers=1, simulate=f'num={nw}', depth=12, seed=ctx.seed)['emitted']
+    hjobs = [(h, si) for i, h in enumerate(hs) for si in ([i % len(STARTS)] if ctx.quick else range(len(STARTS)))]
+    ctx.log(f'{len(hjobs)} query histories on single ground-track objects')
+    for (h, si), devs in zip(hjobs, pmap(run_history, hjobs)):
+        ctx.case_done(('hist', h['trk'], [(e['q']['op'], e['q']['a'], e['q']['b']) for e in h['hist']], si), nontrivial=True)
+        if len(h['hist']) > 2:
+            ctx.sample({'track': h['trk'], 'queries': [(e['q']['op'], e['q']['a'], e['q']['b']) for e in h['hist']], 'start': STARTS[si][:3]}, limit=2)
+        seen = set()
+        for key, desc in devs:
+            if key.endswith('machinery'):
+                raise MachineryError('ground-track worker failed: ' + desc)
+            if key not in seen:
+                seen.add(key)
+                ctx.violation(key, desc, {'history': h, 'start': si})
     md, n = mission_distances()
     for _ in range(n):
         ctx.evaluations += 1
